@@ -738,7 +738,7 @@ def check_encoder(a):
                 by_flags = frozenset(i for i in idx if _consistent(leaves[i], fknown))
                 for b in range(256):
                     must = (flags['unix'] and b == 0x2F) or (flags['windows'] and b in (0x5C, 0x2F, 0x3A)) \
-                        or (control and (b <= 31 or (ascii_ and 128 <= b <= 159)))
+                        or (control and (b <= 31 or b == 127 or (ascii_ and 128 <= b <= 159)))      # DEL is a control character too (Wget escapes it)
                     got = {outs[i] for i in by_flags & by_byte[b]}
                     rows += 1
                     if not got:
@@ -761,7 +761,7 @@ def check_encoder(a):
                     ' '.join('0x%02X' % x for x in bytes_[:8]) + (' ...' if len(bytes_) > 8 else '')), miss.loc())
     else:
         ck.ok('C15-D2', miss.qual, 'escape table: %d concrete rows (2 os types x control x ascii x 256 bytes) over %d decision-tree '
-              'leaves: "/" (unix), "\\ / :" (windows), C0 and C1-under-ascii (control) always escaped as %%XX; free atoms: %s'
+              'leaves: "/" (unix), "\\ / :" (windows), C0, DEL and C1-under-ascii (control) always escaped as %%XX; free atoms: %s'
               % (rows, len(leaves), free or 'none'))
     # every byte goes through the map
     q = repo.func(PATHM + ':PercentEncoder.quote')
